@@ -55,7 +55,18 @@ package scenario
 //@ func (*ByNodeScenario).VictimsTasksFromNodes
 //@   props C06
 //@   trusted
-//@   note trusted read-only frame: VictimsTasksFromNodes only reads the scenario (maps.Keys / maps.Values / GetAllPodsMap of the victim task groups) and returns a new slice; nothing is claimed about the returned tasks
+//@   note trusted read-only frame: VictimsTasksFromNodes only reads the scenario (maps.Keys / maps.Values / GetAllPodsMap of the victim task groups) and returns a new slice of pod-map values (never nil: podgroup_info.allTasksOK)
 //@   requires bns != nil && bns.BaseScenario != nil
 //@   pure
+//@   ensures [tasksNonNil] forall i int :: 0 <= i && i < len(result) ==> result[i] != nil
+//@ end
+
+// Same for the recorded victims: the cached list built by NewBaseScenario, or the values of the recorded jobs' pod maps.
+//@ func (*BaseScenario).RecordedVictimsTasks
+//@   props C06
+//@   trusted
+//@   note trusted read-only frame: returns the cached slice or collects the values of the recorded victim jobs' pod maps (never nil: podgroup_info.allTasksOK); GetAllPodsMap's precondition on those jobs cannot be carried through the `modifies *` statement operations of the callers
+//@   requires s != nil
+//@   pure
+//@   ensures [tasksNonNil] forall i int :: 0 <= i && i < len(result) ==> result[i] != nil
 //@ end
